@@ -145,11 +145,15 @@ class HashMap(Map):
         if fd is None:
             fd = create_map(MapType.HASH, 1, 8, self.count)
         for v in self.vars:
-            getattr(ebpf, v.name).fd = fd
+            # a map may be shared by the classes of a hierarchy: each
+            # program only knows the variables its own class can name
+            if getattr(type(ebpf), v.name, None) is v:
+                getattr(ebpf, v.name).fd = fd
 
     def load(self, ebpf):
         for v in self.vars:
-            setattr(ebpf, v.name, ebpf.__class__.__dict__[v.name].default)
+            if getattr(type(ebpf), v.name, None) is v:
+                setattr(ebpf, v.name, v.default)
 
 
 class TheDict(MutableMapping):
